@@ -21,7 +21,7 @@ ASSUMPTIONS = ["single-feature anonymizers are the reference semantics of each s
                "correctness is C01-C11)", "option menu listed in bounds"]
 
 WORDS = ["seattle", "ply"]
-ASNS = ["65001", "12"]
+ASNS = ["65001", "12", "0", "5", "7"]
 LINES = [
     "interface Ethernet1/12",
     "  ip address 10.1.2.3 255.255.255.0 secondary",
@@ -42,6 +42,10 @@ LINES = [
     "ntp server 172.16.5.9 key 12",
     "ip route 200.7.6.5 255.255.255.255 12.0.0.1 name PlyWood",
     "PlyRouter apply 65001",
+    "snmp-server community hunter RO",
+    "hostname seattle-edge",
+    " neighbor fd::cafe activate",
+    "enable secret plywood",
     "username admin password 0 PlyRouter",
     "snmp-server community PlyRouter ro",
     "enable secret plyrouter",
